@@ -19,7 +19,7 @@ for sh in sorted(glob.glob(d + '/shard-%s-*.ndjson' % tag)):
             ex.setdefault(key, (bodies, 'cut', sc['cut'], 'lim', sc['limit'], sc['enc'], sc['trailers'], [json.loads(x) for x in lines[k + 1:l + 1]][-5:]))
         else:
             key = tuple(str(sc.get(x)) for x in sys.argv[3:]) + (ev['ev'],)
-            ex.setdefault(key, (sc, [json.loads(x) for x in lines[k + 1:l + 1]][-6:]))
+            ex.setdefault(key, (json.dumps(sc)[:600], json.dumps([json.loads(x) for x in lines[k + 1:l + 1]][-2:])[:1200]))
         sigs[key] += 1
 for k, v in sorted(sigs.items(), key=lambda x: -x[1])[:int(40)]:
     print(v, k, ex[k])
